@@ -1,10 +1,13 @@
 """Frame builders for the decode-side generators (C02 decode, C04, C05)."""
 import mp
 
-PROTOCOLS = "70:6d+6e;:7a"            # protocol "p" with methods m, n ; protocol "" with method z
+TYPED = [b"ty.raw", b"ty.st", b"ty.sl", b"ty.str", b"ty.i", b"ty.mp", b"ty.bs"]
+# protocol "p" with methods m, n ; protocol "" with method z ; protocol "ty" whose handlers take typed arguments (a raw
+# value, a struct, a list of ints, a string, an int, a string-keyed map, a byte string)
+PROTOCOLS = "70:6d+6e;:7a;7479:" + "+".join(t[3:].hex() for t in TYPED)
 PENDING = "7:0:1:1,8:0:1:0,9:0:0:1"   # seq 7 generic unwrapper, seq 8 string errors, seq 9 no result wanted
 ENV = "protocols=%s pending=%s" % (PROTOCOLS, PENDING)
-KNOWN = [b"p.m", b"p.n", b"z"]
+KNOWN = [b"p.m", b"p.n", b"z"] * 4 + TYPED
 UNKNOWN = [b"p.x", b"q.m", b"nodot", b"", b"p.", b".m", b"a.b.c"]
 
 
@@ -22,6 +25,7 @@ def frame(c, ch):
 def gen_msg(rng, ch, depth=2, with_expect=False):
     """a valid message: (content bytes, description) or, with_expect, (content, description, expected outcome text)"""
     T = mp.vtext
+    known = [m for m in KNOWN if not m.startswith(b"ty.")] if with_expect else KNOWN     # exact expectations: untyped handlers only
     kind = rng.below(6)
     extra = [mp.gen_value(rng, 1) for _ in range(rng.choice([0, 0, 0, 1, 2, 5]))]
     tags = mp.gen_tags(rng) if rng.chance(1, 3) else None
@@ -30,14 +34,14 @@ def gen_msg(rng, ch, depth=2, with_expect=False):
         seq = mp.gen_int(rng) if rng.chance(1, 4) else rng.below(1000)
         if seq >= 2 ** 63:
             seq -= 2 ** 63
-        me, a = rng.choice(KNOWN), mp.gen_value(rng, depth)
+        me, a = rng.choice(known), mp.gen_value(rng, depth)
         el = [0, seq, ("s", me), a]
         if tags is not None:
             el.append(tags)
             el += extra
         r = (content(el[:15], ch), "call", "call(%s,%s,%s,%s)" % (T(seq), T(("s", me)), T(a), tt))
     elif kind == 1:
-        seq, ct, me, a = rng.below(1000), rng.choice([0, 0, 3, 77, 1, 1] + ([] if with_expect else [2])), rng.choice(KNOWN), mp.gen_value(rng, depth)
+        seq, ct, me, a = rng.below(1000), rng.choice([0, 0, 3, 77, 1, 1] + ([] if with_expect else [2])), rng.choice(known), mp.gen_value(rng, depth)
         exp = None
         wire = a
         if ct == 1:
@@ -82,14 +86,14 @@ def gen_msg(rng, ch, depth=2, with_expect=False):
             exp = "resp(%s,%s,%s)" % (T(seq), T(err), T(res))
         r = (content(el[:15], ch), "resp", exp)
     elif kind == 3:
-        me, a = rng.choice(KNOWN), mp.gen_value(rng, depth)
+        me, a = rng.choice(known), mp.gen_value(rng, depth)
         el = [2, ("s", me), a]
         if tags is not None:
             el.append(tags)
             el += extra
         r = (content(el[:15], ch), "notify", "notify(%s,%s,%s)" % (T(("s", me)), T(a), tt))
     elif kind == 4:
-        seq, me = rng.below(1000), rng.choice(KNOWN + UNKNOWN)
+        seq, me = rng.below(1000), rng.choice(known + UNKNOWN)
         el = [3, seq, ("s", me)] + extra
         r = (content(el[:15], ch), "cancel", "cancel(%s,%s)" % (T(seq), T(("s", me))))
     else:
@@ -110,7 +114,7 @@ def nf_kind(me):
     """which not-found error the PROTOCOLS table gives for a method name"""
     i = me.rfind(b".")
     p, m = (b"", me) if i < 0 else (me[:i], me[i + 1:])
-    table = {b"p": [b"m", b"n"], b"": [b"z"]}
+    table = {b"p": [b"m", b"n"], b"": [b"z"], b"ty": [t[3:] for t in TYPED]}
     if p not in table:
         return "protocol"
     return "method" if m not in table[p] else "found"
